@@ -462,6 +462,7 @@ public:
   {
     static_assert(std::is_pointer_v<T>, "Operator * only allowed on pointers");
     auto ptr = impl().get_raw_value();
+    detail::dynamic_check(ptr != nullptr, "Dereferencing a null pointer");
     check_pointee_in_sandbox(ptr);
     auto ret_ptr_const = reinterpret_cast<const T_OpDerefRet*>(ptr);
     // Safe - If T_OpDerefRet is not a const ptr, this is trivially safe
